@@ -354,6 +354,8 @@ pub struct GenCfg {
     pub delete_nonminting_only: bool,
     /// at most one container sort per kind (known finding F-C11-container-literal-inference)
     pub one_container_per_kind: bool,
+    /// container sorts whose elements are themselves containers (Vec/Set/MultiSet of an earlier container sort)
+    pub nested_containers: bool,
 }
 
 impl Default for GenCfg {
@@ -380,6 +382,7 @@ impl Default for GenCfg {
             subsume_existing_only: false,
             delete_nonminting_only: false,
             one_container_per_kind: false,
+            nested_containers: false,
         }
     }
 }
@@ -461,10 +464,13 @@ pub fn gen_sig(rng: &mut Rng, cfg: &GenCfg) -> Sig {
         sig.sorts.push(format!("{p}S{i}"));
     }
     if cfg.containers {
-        let nc = 1 + rng.below(2);
+        let nc = 1 + rng.below(2) + if cfg.nested_containers { 1 } else { 0 };
         for i in 0..nc {
             let kind = *rng.pick(&[CKind::Vec, CKind::Set, CKind::MultiSet, CKind::Map, CKind::Pair]);
             let a = Ty::Eq(rng.below(ns));
+            // nesting: elements of an earlier (non-Map) container sort
+            let inner: Vec<usize> = sig.conts.iter().enumerate().filter(|(_, c)| c.kind != CKind::Map).map(|(j, _)| j).collect();
+            let a = if cfg.nested_containers && !inner.is_empty() && matches!(kind, CKind::Vec | CKind::Set | CKind::MultiSet) && rng.chance(2, 3) { Ty::Cont(*rng.pick(&inner)) } else { a };
             let b = match kind {
                 CKind::Map => Some(Ty::Eq(rng.below(ns))),
                 CKind::Pair => Some(if rng.chance(1, 2) { Ty::Eq(rng.below(ns)) } else { Ty::I64 }),
